@@ -19,7 +19,9 @@ RULE = ('Cases = 2-3 (hit table, per-call parameter dict) pairs drawn so that da
         'chunk runs ampycloud.run()+metar_msg under a harness-owned scheduler built on sys.monitoring LINE events enabled '
         'on the code objects of ampycloud\'s non-plot modules only; a thread runs only while it holds the baton, and at '
         '1-40 Hypothesis-drawn global step numbers the baton passes to a drawn other thread (replayable: case + switch '
-        'vector). (c) supplementary: free-running threads with sys.setswitchinterval(1e-6). Oracle: every chunk\'s snapshot '
+        'vector); plus, systematically, pre-emption bound 1: for a drawn pair of chunks that both engage the mixture '
+        'model, thread A is pre-empted exactly once at the first execution of each distinct ampycloud source line of its '
+        'run (several hundred), B runs to completion, A resumes - both role assignments. (c) supplementary: free-running threads with sys.setswitchinterval(1e-6). Oracle: every chunk\'s snapshot '
         '(tables, chunk.data with ids, messages, flag, prms) equals its isolated sequential reference, bit-exact, and the '
         'global parameter dict is unchanged. Non-trivial = at least one hand-over happens while two chunks are in flight '
         '(stage interleavings: not a plain concatenation; schedules: >= 1 executed switch). Distinct by (case digest, '
@@ -33,6 +35,7 @@ N_TRIPLES = {'quick': 8, 'thorough': 48}
 TRIPLE_SAMPLES = {'quick': 40, 'thorough': 1680}
 N_SCHED = {'quick': 128, 'thorough': 4000}
 N_FREE = {'quick': 16, 'thorough': 320}
+N_PB1 = {'quick': 2, 'thorough': 12}
 STEPS4 = ['S', 'G', 'L', 'Q']
 _REF_CACHE = {}
 
@@ -65,6 +68,34 @@ def sched_case(draw):
 
 def strategy(tier):
     return sched_case()
+
+
+@st.composite
+def gmm_sensitive_chunk(draw):
+    """ One group of two overlapping height modes with unequal weights: which hit goes to which sub-layer
+    depends on the fitted mixture itself, so a foreign or stale mixture shows in the result. """
+    n = draw(st.integers(40, 70))
+    base = draw(st.sampled_from([800, 2000, 4000]))
+    spread = draw(st.sampled_from([200, 300, 400]))
+    gap = round(spread * draw(st.sampled_from([0.7, 1.0, 1.3])))
+    frac2 = draw(st.sampled_from([15, 30, 50, 70, 85]))
+    noise = S.ints(draw, 0, 1000, n)
+    pick = S.ints(draw, 0, 99, n)
+    rows = []
+    for i in range(n):
+        lo = pick[i] >= frac2
+        h = base + (0 if lo else gap + spread // 2) + spread * noise[i] / 1000
+        rows.append(['a', -900.0 + 15.0 * i, float(round(h)), 1])
+    prms = {'MIN_SEP_VALS': [draw(st.sampled_from([50, 100])), 1000], 'MIN_SEP_LIMS': [10000], 'MAX_HITS_OKTA0': 1,
+            'MSA': draw(st.sampled_from([None, 10000, 25000])),
+            'SLICING_PRMS': {'distance_threshold': 0.5, 'height_scale_kwargs': {'min_range': 5000}}}
+    return {'rows': rows, 'prms': prms}
+
+
+@st.composite
+def gmm_pair(draw):
+    """ Two chunks that both engage the mixture model, with different data and parameters. """
+    return [draw(gmm_sensitive_chunk()), draw(gmm_sensitive_chunk())]
 
 
 def chunk_snapshot(chunk, msg):
@@ -163,8 +194,11 @@ def check(case):
         res.sample = {'kind': kind, 'n_rows': [len(s['rows']) for s in specs], 'prms': [s['prms'] for s in specs],
                       'order': case['order']}
     elif kind == 'sched':
-        total = count_steps(specs)
-        switches = sorted((max(1, int(frac * total / 10000)), tgt) for frac, tgt in case['switches'])
+        if 'abs_switches' in case:
+            switches = [tuple(x) for x in case['abs_switches']]
+        else:
+            total = count_steps(specs)
+            switches = sorted((max(1, int(frac * total / 10000)), tgt) for frac, tgt in case['switches'])
         sc = sched.Scheduler(switches)
         snaps = sc.run([lambda s=s: reference(s) for s in specs])
         if sc.errors:
@@ -244,6 +278,11 @@ def jobs(tier, seed):
     for i in range(N_TRIPLES[tier]):
         out.append({'name': f'triples-{i}', 'what': 'triples', 'seed': runner.derive_seed(seed, ID, 'triples', i),
                     'part': i, 'parts': N_TRIPLES[tier]})
+    for pair in range(N_PB1[tier]):
+        for role in (0, 1):
+            for part in range(4):
+                out.append({'name': f'pb1-{pair}-{role}-{part}', 'what': 'pb1', 'role': role, 'part': part, 'parts': 4,
+                            'seed': runner.derive_seed(seed, ID, 'pb1', pair)})
     nsh = 16
     for i in range(nsh):
         out.append({'name': f'sched-{i}', 'what': 'sched', 'seed': runner.derive_seed(seed, ID, 'sched', i),
@@ -278,6 +317,23 @@ def run_job(job, ctx):
     elif what == 'free':
         runner.hyp_explore(mod, ctx, chunks_strategy().map(lambda c: {'kind': 'free', 'chunks': c}), job['n'],
                            job['seed'])
+    elif what == 'pb1':
+        # preemption bound 1, systematically: thread A is pre-empted once, at the first execution of each
+        # distinct ampycloud source line of its run; B then runs to completion and A resumes.
+        specs = draw_examples(gmm_pair(), 4, job['seed'])[-1]
+        if job['role'] == 1:
+            specs = specs[::-1]
+        rec = sched.Scheduler(())
+        rec.run([lambda: reference(specs[0])])
+        steps = sorted(set(rec.first_seen.values()))
+        mine = steps[job['part']::job['parts']]
+        for stp in mine:
+            case = {'kind': 'sched', 'chunks': specs, 'abs_switches': [[stp, 0]]}
+            ctx.record(case, check(case))
+        if job['part'] == 0:
+            ctx.stats.exhaustive.append(f'one pre-emption of thread A at the first execution of each of the {len(steps)} '
+                                        'distinct ampycloud source lines of its run (B runs to completion, A resumes), '
+                                        'for each drawn mixture-model pair and both role assignments')
     elif what == 'pairs':
         specs = [s for s in draw_examples(chunks_strategy(n=(2, 2)), 3, job['seed'])][-1]
         n = 0
